@@ -57,7 +57,14 @@ where
         let input = self.as_ref();
         let mut result: Vec<u8> = Vec::with_capacity(input.len() * 3 / 4);
 
-        for group in input.as_bytes().chunks(4) {
+        let groups = input.len() / 4;
+
+        // The input must consist of complete (padded) four-character groups
+        if input.len() % 4 != 0 {
+            return Err(());
+        }
+
+        for (group_index, group) in input.as_bytes().chunks(4).enumerate() {
             let mut decoded: u32 = 0;
             let mut broken: usize = 4;
 
@@ -66,9 +73,17 @@ where
                     b'A'..=b'Z' => decoded |= ((tem - b'A') as u32) << (6 * (3 - i)),
                     b'a'..=b'z' => decoded |= ((tem - b'a' + 26) as u32) << (6 * (3 - i)),
                     b'0'..=b'9' => decoded |= ((tem - b'0' + 52) as u32) << (6 * (3 - i)),
-                    b'+' => decoded |= 62_u32 << (6 * i),
-                    b'/' => decoded |= 63_u32 << (6 * i),
+                    b'+' => decoded |= 62_u32 << (6 * (3 - i)),
+                    b'/' => decoded |= 63_u32 << (6 * (3 - i)),
                     b'=' => {
+                        // Padding is only valid as the last one or two characters of the last group
+                        if i < 2
+                            || group_index != groups - 1
+                            || group[i..].iter().any(|c| *c != b'=')
+                        {
+                            return Err(());
+                        }
+
                         broken = i;
                         break;
                     }
